@@ -362,7 +362,8 @@ def witness(name):
     if name == 'standin_eagle_priors':
         # eagle: n_prior <= pool space for priors and ceil(max_evaluations / batch) * batch >= pool_size  =>  best returned >= best prior score
         bad, runs = None, 0
-        for nc, cats, nprior, M, B in ((12, (), 40, 40, 25), (2, (3,), 7, 25, 5)):
+        # (the third configuration: max_pool_size is not a multiple of the batch size and the best prior is the oldest one)
+        for nc, cats, nprior, M, B, maxpool in ((12, (), 40, 40, 25, 100), (2, (3,), 7, 25, 5, 100), (12, (), 29, 50, 25, 30)):
             conv = make_converter(nc, cats, False)
             rs = np.random.RandomState(nprior)
             trs = [vz.Trial(parameters=dict([('x%d' % i, float(rs.rand())) for i in range(nc)] + [('c%d' % i, str(int(rs.randint(k)))) for i, k in enumerate(cats)]))
@@ -373,7 +374,7 @@ def witness(name):
             def sc(x, s, target=target):
                 d = jnp.sum((cont_in(x) - jnp.asarray(target)) ** 2, axis=-1)
                 return jnp.where(d < 1e-12, 10.0, -d)
-            fac = es.VectorizedEagleStrategyFactory()
+            fac = es.VectorizedEagleStrategyFactory(eagle_config=es.EagleStrategyConfig(max_pool_size=maxpool))
             opt = vb.VectorizedOptimizerFactory(strategy_factory=fac, max_evaluations=M, suggestion_batch_size=B)(conv)
             pool, steps = opt.strategy.pool_size, -(-M // B)
             if not (nprior <= pool - int(pool * (1 - opt.strategy.config.prior_trials_pool_pct)) and steps * B >= pool):
@@ -382,7 +383,7 @@ def witness(name):
             runs += 1
             best_prior = float(np.max(np.asarray(sc(pf, None))))
             if not float(np.asarray(res.rewards)[0]) >= best_prior:
-                bad = {'n_continuous': nc, 'categories': list(cats), 'n_prior': nprior, 'max_evaluations': M, 'suggestion_batch_size': B, 'pool_size': pool, 'best_prior_score': best_prior,
+                bad = {'n_continuous': nc, 'categories': list(cats), 'n_prior': nprior, 'max_pool_size': maxpool, 'max_evaluations': M, 'suggestion_batch_size': B, 'pool_size': pool, 'best_prior_score': best_prior,
                        'best_returned': jsonable(res.rewards)}
         return {'held': bad is None, 'failing_input': bad, 'bound': '%d eagle runs (priors inside the cube, n_prior <= pool space, ceil(budget/batch)*batch >= pool_size)' % runs}
     return {'error': 'unknown witness %s' % name}
